@@ -71,6 +71,8 @@ func Steady() {
 			vx.Assert("C20.nocache_retains_nothing", e.Secrets.Live() == 0)
 		} else {
 			vx.Assert("C20.no_external_calls_within_interval", vx.Implies(within, dm == 0 && dk == 0))
+			// ... and only for one interval: the first use after it re-reads the key's record before using the key
+			vx.Assert("C20.key_record_re_read_after_interval", vx.Implies(vx.Not(within), dm >= 1))
 			if dm > 0 {
 				vx.Reach("C20.reloaded_after_interval")
 				// the re-read refreshes that key's entry: its next interval starts now
